@@ -184,6 +184,9 @@ func (p *Prog) Func(pkgPath, spec string) *ssa.Function {
 		ptr = true
 		s = strings.TrimPrefix(s, "(*")
 		s = strings.Replace(s, ")", "", 1)
+	} else if strings.HasPrefix(s, "(") {
+		s = strings.TrimPrefix(s, "(")
+		s = strings.Replace(s, ")", "", 1)
 	}
 	i := strings.Index(s, ".")
 	tn, mn := s[:i], s[i+1:]
